@@ -59,6 +59,15 @@ def run(ctx):
     n = 600 if ctx.tier == "quick" else 4000
     fp.explore(ctx, drv, n // 2, per_case, gen=fp.gen_tied_case, graph_corr=True, pipe_corr=True)
     fp.explore(ctx, drv, n // 2, per_case, gen=lambda rng, i: fp.gen_case(rng, i, share_every=1, const_output=0.35 if i % 2 else 0.0), graph_corr=False, pipe_corr=True)
+    # BLOCKWISE weights (emulated sub-channel pattern, reachable with skip_checks only; outside the Lean model): the weight's buffer also
+    # backs a tensor nobody reads / the weight of a second operator the rule does not cover — rejected, or every referent agrees with the bytes
+    from .. import pipeline as pl
+    interp = pl.Interp()
+    try:
+        fp.blockwise_probe(ctx, drv, interp, 12 if ctx.tier == "quick" else 60, sharing=True)
+    except Exception as e:  # noqa: BLE001
+        ctx.fail(f"the BLOCKWISE sharing probe could not run ({type(e).__name__}: {str(e)[:100]})", {}, "blockwise-probe-crash")
+    interp.close()
     drv.close()
     return common.finish(ctx)
 
